@@ -23,6 +23,7 @@ func init() {
 	ruleText["R16.1"] = "in importSrc: (a) the srcPkg early return dominates every file access and run; (b) the test of Interpreter.rdir[importPath] (returning an import-cycle error) dominates the store rdir[importPath] = true, which dominates fs.ReadDir and every call that can recurse (parse/gta/gtaRetry/cfg); (c) on the relative-import branch the directory derives from filepath.Dir(interp.name)"
 	ruleText["R16.2"] = "in pkgDir the fs.Stat of the candidate containing the vendor directory precedes (dominates) the fs.Stat of the plain candidate, each successful Stat returns its own candidate, and the recursive call takes the root computed by previousRoot; in previousRoot, under root != mainID && final != vendor, no return with a nil error is reachable from the entry without passing a block that calls fs.Stat"
 	ruleText["R16.4"] = "in importSrc the first argument of effectivePkg originates (SSA) only in the second result of a pkgDir call (possibly through an in-package helper), the root parameter or a constant"
+	ruleText["R16.5"] = "in the loop of previousRoot that calls fs.Stat on Join(<dir>, vendor), every break decided by a comparison with the source root (prefix) compares <dir> itself"
 	ruleText["R16.3"] = "every file-system access in the functions reachable from importSrc within package interp is an io/fs function whose first argument is loaded from Interpreter.opt.filesystem; no os.Open/ReadFile/Stat/ReadDir or io/ioutil access"
 }
 
@@ -38,6 +39,7 @@ func runC16(c *Config, r *Report) {
 	c16R2b(ic, r)
 	c16R3(ic, r)
 	c16R4(ic, r)
+	c16R5(ic, r)
 }
 
 func c16R1(ic *IC, r *Report) {
@@ -602,5 +604,70 @@ func c16R4(ic *IC, r *Report) {
 	}
 	if n == 0 {
 		r.Errorf("R16.4: no call of effectivePkg found in importSrc")
+	}
+}
+
+// c16R5: the ancestor walk of previousRoot probes <dir>/vendor for every directory from the
+// importer's parent up to the first element under GOPATH/src, and stops when <dir> itself has
+// reached the source root. In the loop that calls fs.Stat on Join(<dir>, vendor), every break
+// that is decided by a comparison with the source root compares the walked directory itself
+// (the variable joined into the probed path) - a comparison of filepath.Dir(<dir>) or of
+// another derived value stops one level early and never looks at GOPATH/src/<top>/vendor.
+func c16R5(ic *IC, r *Report) {
+	fi := ic.fn(r, "previousRoot")
+	if fi == nil {
+		return
+	}
+	info := ic.Info
+	n := 0
+	ast.Inspect(fi.Decl.Body, func(m ast.Node) bool {
+		loop, ok := m.(*ast.ForStmt)
+		if !ok {
+			return true
+		}
+		// the walked directory: first argument of filepath.Join inside the fs.Stat call
+		var dir types.Object
+		for _, c := range callsIn(info, loop.Body, false, "io/fs.Stat") {
+			for _, j := range callsIn(info, c, true, "path/filepath.Join") {
+				if len(j.Args) > 0 {
+					if id := identOf(j.Args[0]); id != nil {
+						dir = info.ObjectOf(id)
+					}
+				}
+			}
+		}
+		if dir == nil {
+			return true
+		}
+		// the source root: a local compared with the directory somewhere in the loop
+		ast.Inspect(loop.Body, func(k ast.Node) bool {
+			ifs, ok := k.(*ast.IfStmt)
+			if !ok {
+				return true
+			}
+			breaks := false
+			for _, st := range ifs.Body.List {
+				if b, ok := st.(*ast.BranchStmt); ok && b.Tok == token.BREAK {
+					breaks = true
+				}
+			}
+			be, ok := unparen(ifs.Cond).(*ast.BinaryExpr)
+			if !breaks || !ok || be.Op != token.EQL {
+				return true
+			}
+			rid := identOf(be.Y)
+			if rid == nil || rid.Name != "prefix" {
+				return true
+			}
+			n++
+			lid := identOf(be.X)
+			r.Check(lid != nil && info.ObjectOf(lid) == dir, "R16.5", fmt.Sprintf("previousRoot/stop-at-the-source-root#%d", n), ic.pos(ifs.Pos()), "the walk stops when the probed directory itself is the source root",
+				"the ancestor walk of previousRoot stops on "+types.ExprString(ifs.Cond)+", which does not compare the probed directory "+dir.Name()+" itself with the source root: the walk ends one level early and the vendor directory of a first-level project (GOPATH/src/<top>/vendor) is never probed for importers two or more levels below it")
+			return true
+		})
+		return false
+	})
+	if n == 0 {
+		r.Errorf("R16.5: no break decided by a comparison with the source root found in the ancestor walk of previousRoot")
 	}
 }
